@@ -62,6 +62,9 @@ fn tombstone_seed(fill: u8, remove: u8) -> Vec<MapOp> {
 pub fn mk<K: KeyT, V: ValT>(plan: Plan, universe: u8, seeds: Vec<Vec<MapOp>>, depth: Option<u32>, tier: Tier, need_inplace: bool, tag: &str) -> Box<dyn Config> {
     let mut c = MapCfg::new(plan, universe);
     c.max_buckets = if super::width() == 16 { 64 } else { 32 };
+    if tag.contains("rehash-ops") {
+        c.alphabet = Alphabet::rehash();
+    }
     let mut cs = c.clone();
     cs.alphabet = Alphabet::core();
     let label = format!("{}-{}{}", c.label(), K::NAME, tag);
@@ -72,7 +75,7 @@ pub fn mk<K: KeyT, V: ValT>(plan: Plan, universe: u8, seeds: Vec<Vec<MapOp>>, de
         h_full: MapHarness::new(c),
         seeds,
         limits: Limits { max_depth: depth, max_wall_s: if quick { 20.0 } else { 600.0 }, ..Default::default() },
-        max_states: if quick { 3_000 } else { 200_000 },
+        max_states: if quick { 8_000 } else { 200_000 },
         wall_cap: if quick { 25.0 } else { 1500.0 },
         need_inplace,
     })
@@ -92,12 +95,23 @@ pub fn configs(tier: Tier) -> Vec<Box<dyn Config>> {
         v.push(mk::<PKey, PVal>(Plan::Zero, u, vec![vec![]], None, tier, false, ""));
         v.push(mk::<TKey, TVal>(Plan::Seq, if quick { 4 } else { 6 }, vec![vec![]], None, tier, false, ""));
         // MAX plan: the first element lives in the LAST bucket (guards that walk the buckets must reach it)
-        v.push(mk::<PKey, PVal>(Plan::Max, 30, vec![tombstone_seed(28, 20), tombstone_seed(28, 27)], Some(0), tier, true, "-seeded"));
+        // (key 0 stays: it is the element in the last bucket)
+        let keep0 = |fill: u8, removed: u8| {
+            let mut h: Vec<MapOp> = (0..fill).map(MapOp::Insert).collect();
+            h.extend((1..=removed).map(MapOp::Remove));
+            h
+        };
+        v.push(mk::<PKey, PVal>(Plan::Max, 30, vec![keep0(28, 20), keep0(28, 26), tombstone_seed(28, 20)], Some(0), tier, true, "-seeded"));
+        v.push(mk::<TKey, TVal>(Plan::Max, 30, vec![keep0(28, 20), keep0(28, 15)], Some(if quick { 0 } else { 1 }), tier, true, "-seeded"));
     } else {
-        v.push(mk::<TKey, TVal>(Plan::Max, if quick { 8 } else { 10 }, vec![vec![]], None, tier, true, ""));
+        // closed spaces big enough to contain in-place rehashes of non-empty tables; the fault alphabet is the
+        // set of operations that can resize or rehash
+        let ur = if quick { 10 } else { 12 };
+        v.push(mk::<TKey, TVal>(Plan::Max, ur, vec![vec![]], None, tier, true, "-rehash-ops"));
+        v.push(mk::<PKey, PVal>(Plan::Zero, ur, vec![vec![]], None, tier, true, "-rehash-ops"));
         let u = if quick { 8 } else { 11 };
-        v.push(mk::<PKey, PVal>(Plan::Zero, u, vec![vec![]], None, tier, true, ""));
-        v.push(mk::<TKey, TVal>(Plan::Zero, u, vec![vec![]], None, tier, true, ""));
+        v.push(mk::<PKey, PVal>(Plan::Zero, u, vec![vec![]], None, tier, false, ""));
+        v.push(mk::<TKey, TVal>(Plan::Zero, u, vec![vec![]], None, tier, !quick, ""));
         v.push(mk::<TKey, TVal>(Plan::Cluster(2), if quick { 6 } else { 9 }, vec![vec![]], None, tier, false, ""));
         v.push(mk::<TKey, TVal>(Plan::Seq, if quick { 4 } else { 6 }, vec![vec![]], None, tier, false, ""));
     }
